@@ -31,6 +31,7 @@ func resolveDependentFields(
 	parentPackage string,
 	dependencies map[string]string,
 	subdefinition string,
+	resolving []string,
 ) ([]Field, error) {
 	fields := []Field{}
 	for i, line := range strings.Split(subdefinition, "\n") {
@@ -85,26 +86,37 @@ func resolveDependentFields(
 			if typeIsQualified {
 				fieldParentPackage = strings.Split(fieldType, "/")[0]
 			}
+			resolvedType := fieldType
 			subdefinition, typeIsPresent := dependencies[fieldType]
 			switch {
 			case typeIsPresent:
 				break
 			case fieldType == "Header":
+				resolvedType = "std_msgs/Header"
 				subdefinition, ok = dependencies["std_msgs/Header"]
 				if !ok {
 					return nil, fmt.Errorf("dependency Header not found")
 				}
 			case !typeIsPresent && !typeIsQualified:
 				qualifiedType := fieldParentPackage + "/" + fieldType
+				resolvedType = qualifiedType
 				subdefinition, ok = dependencies[qualifiedType]
 				if !ok {
 					return nil, fmt.Errorf("dependency %s not found", qualifiedType)
+				}
+			}
+			// a type that (directly or indirectly) contains itself has no finite field tree;
+			// resolving it would recurse until the stack is exhausted.
+			for _, t := range resolving {
+				if t == resolvedType {
+					return nil, fmt.Errorf("type %s is defined recursively", resolvedType)
 				}
 			}
 			recordFields, err = resolveDependentFields(
 				fieldParentPackage,
 				dependencies,
 				subdefinition,
+				append(resolving, resolvedType),
 			)
 			if err != nil {
 				return nil, fmt.Errorf("failed to resolve dependent record: %w", err)
@@ -167,7 +179,7 @@ func ParseMessageDefinition(parentPackage string, data []byte) ([]Field, error) 
 		rosType := strings.TrimPrefix(header, "MSG: ")
 		dependencies[rosType] = strings.Join(lines[1:], "\n")
 	}
-	fields, err := resolveDependentFields(parentPackage, dependencies, definition)
+	fields, err := resolveDependentFields(parentPackage, dependencies, definition, nil)
 	if err != nil {
 		return nil, fmt.Errorf("failed to build dependent records: %w", err)
 	}
